@@ -34,6 +34,7 @@ import (
 	"github.com/nuetzliches/hookaido/internal/queue"
 	"github.com/nuetzliches/hookaido/internal/router"
 	"github.com/nuetzliches/hookaido/internal/secrets"
+	"github.com/nuetzliches/hookaido/internal/verifhook"
 	"github.com/nuetzliches/hookaido/internal/workerapi"
 	workerapipb "github.com/nuetzliches/hookaido/internal/workerapi/proto"
 	"google.golang.org/grpc"
@@ -1110,6 +1111,7 @@ func reloadConfig(path string, running config.Compiled, state *runtimeState, log
 		logger.Error("config_reload_failed", slog.Any("err", err), slog.String("trigger", trigger))
 		return running, false
 	}
+	verifhook.Point("app.reload.between_swaps")
 	state.updateAll(compiled)
 
 	logger.Info("config_reloaded_ok", slog.String("trigger", trigger))
@@ -1660,15 +1662,18 @@ func writeFileAtomic(path string, data []byte) error {
 	if _, err := tmp.Write(data); err != nil {
 		return err
 	}
+	verifhook.Point("app.writefile.after_write")
 	if err := tmp.Sync(); err != nil {
 		return err
 	}
+	verifhook.Point("app.writefile.after_sync")
 	if err := tmp.Close(); err != nil {
 		return err
 	}
 	if err := os.Rename(tmpPath, path); err != nil {
 		return err
 	}
+	verifhook.Point("app.writefile.after_rename")
 	keepTemp = true
 
 	return syncDir(dir)
